@@ -66,8 +66,12 @@ Record TInv (s : st) (h : list trec) : Prop := mkTInv {
   t_ta : TA (aht_of s) h;
   t_comm : committed s <= alatest s;
   t_pc : match phase_ s with PC _ => alatest s = asize s /\ asize s = precommitted s | _ => True end;
-  t_dur : c_ahtreset (s_cfg s) = true -> len (durable (ahc s)) = 12 * alatest s
+  t_dur : c_ahtreset (s_cfg s) = RSync -> pending (ahc s) = [] /\ len (durable (ahc s)) = 12 * alatest s
 }.
+
+(* with the proposed durable ResetSize: nothing is pending on the tree's commit log and its durable
+   size is latestSyncedNode *)
+Definition CD (a : aht) : Prop := pending (a_c a) = [] /\ len (durable (a_c a)) = 12 * a_latest a.
 
 Lemma TA_ext a h h' : TA a h -> firstn (N.to_nat (a_size a)) h' = firstn (N.to_nat (a_size a)) h ->
   (length h <= length h')%nat -> TA a h'.
@@ -82,17 +86,16 @@ Qed.
 (* sync() *)
 Lemma aht_sync_TA thld a h a' :
   AInv thld a -> TA a h -> aht_sync a = Ok a' ->
-  TA a' h /\ a_latest a' = a_size a /\ a_size a' = a_size a /\ AInv thld a' /\
-  (len (durable (a_c a)) = 12 * a_latest a -> len (durable (a_c a')) = 12 * a_latest a').
+  TA a' h /\ a_latest a' = a_size a /\ a_size a' = a_size a /\ AInv thld a' /\ (CD a -> CD a').
 Proof.
   intros IA T E.
   destruct (aht_sync_AInv _ _ IA) as (a'' & E'' & IA' & Sz & La & _).
   assert (a'' = a') by congruence. subst a''.
-  destruct IA as (Wd & Wc & Hs & Hc & H32 & Hp & Hb & H12 & Hbl & Hm).
+  destruct IA as (Wd & HC & Hs & Hc & H32 & H12).
   destruct T as (A1 & A2 & A3 & A4 & A5 & A6 & A7 & A8).
-  destruct (aht_sync_content a a' Wd Wc Hp Hb H12 Hbl E) as [(Z & ->)|(NZ & D1 & D2 & D3 & D4 & D5 & D6 & D7 & D8 & D9)].
+  destruct (aht_sync_content a a' Wd HC H12 E) as [(Z & ->)|(NZ & D1 & D2 & D3 & D4 & D5 & D6 & D6b & D7 & D8 & D9)].
   - split; [|auto]. unfold TA. repeat split; auto.
-  - split; [|split; [auto|split; [auto|split; [auto|intros _; rewrite D6, D7; reflexivity]]]].
+  - split; [|split; [auto|split; [auto|split; [auto|intros _; split; [exact D6b|rewrite D6, D7; reflexivity]]]]].
     assert (Ll: 32 * a_size a <= len (lview (a_d a))) by (rewrite len_lview by auto; lia).
     unfold TA. rewrite D1, D2, D4, D5, D7, D8. rewrite Hs.
     split; [lia|]. split; [exact A2|]. split; [exact Ll|]. split; [exact A7|].
@@ -103,14 +106,13 @@ Qed.
 Lemma aht_append_TA thld a h r a' :
   AInv thld a -> TA a h -> nth_error h (N.to_nat (a_size a)) = Some r -> len (t_alh r) = 32 ->
   aht_append thld a (t_alh r) = Ok a' ->
-  TA a' h /\ a_size a' = a_size a + 1 /\ a_latest a <= a_latest a' /\ AInv thld a' /\
-  (len (durable (a_c a)) = 12 * a_latest a -> len (durable (a_c a')) = 12 * a_latest a').
+  TA a' h /\ a_size a' = a_size a + 1 /\ a_latest a <= a_latest a' /\ AInv thld a' /\ (CD a -> CD a').
 Proof.
   intros IA T En Lr E.
   destruct (aht_append_ok thld a (t_alh r) IA Lr) as (a'' & E'' & IA' & Sz).
   assert (a'' = a') by congruence. subst a''.
   pose proof IA as IA0.
-  destruct IA as (Wd & Wc & Hs & Hc & H32 & Hp & Hb & H12 & Hbl & Hm).
+  destruct IA as (Wd & HC & Hs & Hc & H32 & H12).
   destruct T as (A1 & A2 & A3 & A4 & A5 & A6 & A7 & A8).
   assert (Hlt: (N.to_nat (a_size a) < length h)%nat) by (apply nth_error_Some; congruence).
   unfold aht_append in E.
@@ -146,10 +148,10 @@ Proof.
   destruct (N.eqb_spec (a_cnt a + 1) thld) as [Et|Nt].
   - (* threshold reached: sync *)
     assert (Wd1: wf (a_d a1)) by exact W2.
-    destruct (aht_sync_content a1 a2 Wd1 Wc Hp Hb H12 Hbl E2) as [(Z & _)|(NZ & D1 & D2 & D3 & D4 & D5 & D6 & D7 & D8 & D9)].
+    destruct (aht_sync_content a1 a2 Wd1 HC H12 E2) as [(Z & _)|(NZ & D1 & D2 & D3 & D4 & D5 & D6 & D6b & D7 & D8 & D9)].
     { cbn [a1 a_cnt] in Z. lia. }
     cbn [a1 a_d a_c a_size a_latest a_cnt] in *.
-    split; [|split; [cbn [a_size]; lia|split; [cbn [a_latest]; lia|split; [exact IA'|intros _; cbn [a_c a_latest]; rewrite D6, D7; reflexivity]]]].
+    split; [|split; [cbn [a_size]; lia|split; [cbn [a_latest]; lia|split; [exact IA'|intros _; unfold CD; cbn [a_c a_latest]; split; [exact D6b|rewrite D6, D7; reflexivity]]]]].
     unfold TA. cbn [a_d a_c a_size a_latest a_cnt]. rewrite D1, D2, D4, D5, D7, D8.
     assert (Ls: a_latest a + (a_cnt a + 1) = a_size a + 1) by lia. rewrite Ls in *.
     assert (Ll2: 32 * (a_size a + 1) <= len (lview d2)).
@@ -174,7 +176,7 @@ Proof.
   - unfold TA, aht_of, init. cbn. repeat split; try lia; try constructor.
   - cbn. lia.
   - cbn. exact I.
-  - intros _. reflexivity.
+  - intros _. unfold init. destruct (c_prealloc c); split; reflexivity.
 Qed.
 
 Lemma Q_ok {A} (a b : A) : Ok a = Ok b -> a = b.
@@ -225,7 +227,7 @@ Proof.
     + unfold aht_of. cbn [ahd ahc asize alatest acnt]. destruct a2; exact T2.
     + cbn [committed alatest]. unfold aht_of in Lt; cbn [a_latest] in Lt. lia.
     + cbn [phase_]. trivial.
-    + cbn [s_cfg ahc alatest]. intros Fr. apply Dk. exact (Td Fr).
+    + cbn [s_cfg ahc alatest]. intros Fr. apply (Dk (Td Fr)).
   - (* OFlush *)
     subst h'.
     destruct f as [| |v| |].
@@ -240,7 +242,7 @@ Proof.
       * apply pending_flushn_ge; auto.
       * rewrite bufoff_flushn. lia.
     + apply Q_ok in E. subst s'.
-      destruct IA as (_ & _ & _ & _ & _ & _ & Hb & _).
+      destruct IA as (_ & (Hb & _) & _).
       unfold aht_of in Hb; cbn [a_c] in Hb.
       constructor; auto.
       * unfold aht_of, upd_files. cbn [ahd ahc asize alatest acnt].
@@ -266,7 +268,7 @@ Proof.
     + cbn [committed alatest]. pose proof (v_cd _ _ _ _ _ I). unfold ready in Rd. lia.
     + cbn [phase_ alatest asize]. split; [lia|]. unfold precommitted. cbn [committed pbuf].
       unfold ready, precommitted in Rd. lia.
-    + cbn [s_cfg ahc alatest]. intros Fr. apply Dk. exact (Td Fr).
+    + cbn [s_cfg ahc alatest]. intros Fr. apply (Dk (Td Fr)).
   - (* OSyncC *)
     destruct (phase_ s) as [| |t] eqn:Ep; try discriminate. apply Q_ok in E. subst s'.
     pose proof (v_cph _ _ _ _ _ I) as Cph. rewrite Ep in Cph. destruct Cph as (Et & _).
@@ -319,8 +321,7 @@ Lemma relink_TA n : forall thld tx cm c pb a a' h,
                read_alh H tx cm c pb k = Ok (t_alh r) /\ len (t_alh r) = 32) ->
   (N.to_nat (a_size a) + n <= length h)%nat ->
   relink H n thld tx cm c pb a = Ok a' ->
-  TA a' h /\ a_latest a <= a_latest a' /\ AInv thld a' /\
-  (len (durable (a_c a)) = 12 * a_latest a -> len (durable (a_c a')) = 12 * a_latest a').
+  TA a' h /\ a_latest a <= a_latest a' /\ AInv thld a' /\ (CD a -> CD a').
 Proof.
   induction n as [|n IH]; intros thld tx cm c pb a a' h IA T Hr Hn E; cbn [relink] in E.
   - apply Q_ok in E. subst a'. split; [exact T|split; [lia|split; [exact IA|auto]]].
@@ -339,15 +340,14 @@ Qed.
 
 (* the size check of ahtree.OpenWith on a crash image, with the proposed repair *)
 Lemma TInv_check nv s h d im :
-  c_ahtreset (s_cfg s) = true -> Inv nv s h d -> TInv s h -> crash s im -> ~ aht_check_fails im.
+  c_ahtreset (s_cfg s) = RSync -> Inv nv s h d -> TInv s h -> crash s im -> ~ aht_check_fails im.
 Proof.
   intros Fr I T (_ & _ & _ & Cad & Cac).
-  destruct T as [(A1 & A2 & A3 & A4 & A5 & A6 & A7 & A8) _ _ Td]. specialize (Td Fr).
-  pose proof (v_aht _ _ _ _ _ I) as ((Wd & Wc & Hs & Hcn & H32 & Hp & Hb & H12 & Hbl & Hm) & Has).
+  destruct T as [(A1 & A2 & A3 & A4 & A5 & A6 & A7 & A8) _ _ Td]. destruct (Td Fr) as (Tp & Tl).
   unfold aht_of in *. cbn [a_d a_c a_size a_latest a_cnt] in *.
   assert (Eac: i_ahc im = durable (ahc s)) by (apply crash_image_nopending; auto).
   destruct (crash_image_prefix _ _ _ A5 A3 Cad) as (_ & Lad).
-  unfold aht_check_fails. rewrite Eac, Td. lia.
+  unfold aht_check_fails. rewrite Eac, Tl. lia.
 Qed.
 
 Lemma recover_TInv nv s h d im upto s' :
@@ -362,10 +362,10 @@ Proof.
   assert (s2 = s') by congruence. subst s2.
   set (h' := firstn (N.to_nat c') h ++ rs) in *.
   exists h', (c' + N.of_nat (length rs)). split; [exact I2|]. split; [exact V2|].
-  cbv zeta in Haht. destruct Haht as (Eac & a1 & Ea1 & IA0 & Erl).
+  cbv zeta in Haht. destruct Haht as ((mi & Hmi & Eac) & a1 & Ea1 & IA0 & Erl).
   destruct T as [Ta Tc Tp Td].
   destruct Ta as (A1 & A2 & A3 & A4 & A5 & A6 & A7 & A8).
-  pose proof (v_aht _ _ _ _ _ I) as ((Wd & Wc & Hs & Hcn & H32 & Hp & Hb & H12 & Hbl & Hm) & Has).
+  pose proof (v_aht _ _ _ _ _ I) as ((Wd & HC & Hs & Hcn & H32 & H12) & Has).
   unfold aht_of in *. cbn [a_d a_c a_size a_latest a_cnt] in *.
   destruct Cr as (_ & Ccm & _ & Cad & Cac).
   destruct (crash_image_prefix _ _ _ A5 A3 Cad) as (Pad & Lad). rewrite A4 in Pad.
@@ -376,26 +376,30 @@ Proof.
   assert (Hcl: c' <= alatest s).
   { destruct Hc6 as [-> | (t & Ept)]; [exact Tc|]. rewrite Ept in Tp. destruct Tp as (P1 & P2). lia. }
   set (asz := len (i_ahc im) / 12) in *.
-  assert (Hasz: c' <= asz) by (unfold asz; rewrite Eac; lia).
-  assert (Hmod: len (i_ahc im) = 12 * asz) by (unfold asz; rewrite Eac; lia).
-  set (a0 := mkAht (f_open (i_ahd im)) (f_open (i_ahc im)) asz asz 0) in *.
+  assert (Lac: 12 * alatest s <= len (i_ahc im)) by (rewrite Eac, len_take; lia).
+  assert (Hasz: c' <= asz) by (unfold asz; lia).
+  set (a0 := mkAht (f_open (i_ahd im)) (open_trim (i_ahc im) 12) asz asz 0) in *.
+  destruct (open_trim_spec H H_len (i_ahc im) 12 ltac:(lia)) as (O1 & O2 & O3 & O4 & O5 & O6 & O7).
   (* the reset lands on c' in both cases *)
   assert (F1: AInv (c_thld (s_cfg s)) a1 /\ a_size a1 = c' /\ a_latest a1 = c' /\ a_d a1 = f_open (i_ahd im) /\
               12 * c' <= len (durable (a_c a1)) /\
-              (c_ahtreset (s_cfg s) = true -> len (durable (a_c a1)) = 12 * c')).
+              (c_ahtreset (s_cfg s) = RSync -> pending (a_c a1) = [] /\ len (durable (a_c a1)) = 12 * c')).
   { destruct (N.ltb_spec c' asz) as [Hlt|Hge].
     - destruct (aht_reset_ok (c_ahtreset (s_cfg s)) _ a0 c' IA0 Hlt Ht)
-        as (a1' & a' & Es & Er & IA' & Sz & La & Cn & Ed & Ef & Et).
+        as (a1' & a' & Es & Er & IA' & Sz & La & Cn & Ed & _ & L12 & Et).
       assert (a' = a1) by congruence. subst a'.
       assert (a1' = a0).
       { unfold aht_sync in Es. unfold a0 in Es. cbn [a_cnt] in Es. change (0 =? 0) with true in Es.
         cbv iota in Es. unfold a0. congruence. }
       subst a1'. split; [exact IA'|]. split; [exact Sz|]. split; [exact La|]. split; [exact Ed|].
-      destruct (c_ahtreset (s_cfg s)).
-      + destruct (Et eq_refl) as (_ & Ll). split; [lia|auto].
-      + rewrite (Ef eq_refl). cbn [a0 a_c f_open durable]. split; [lia|discriminate].
+      split; [exact L12|exact Et].
     - assert (asz = c') by lia. assert (a1 = a0) by congruence. subst a1.
-      split; [exact IA0|]. cbn [a0 a_size a_latest a_d a_c f_open durable]. repeat split; auto; lia. }
+      split; [exact IA0|]. cbn [a0 a_size a_latest a_d a_c]. rewrite O1.
+      split; [auto|]. split; [auto|]. split; [reflexivity|]. split; [lia|].
+      intros Fr. destruct (Td Fr) as (Tp0 & Tl0).
+      assert (Ei: i_ahc im = durable (ahc s)) by (apply crash_image_nopending; auto).
+      assert (Hm0: len (i_ahc im) mod 12 = 0) by (rewrite Ei, Tl0; lia).
+      rewrite (O6 Hm0). cbn [f_open pending]. split; [reflexivity|]. unfold asz in *. lia. }
   destruct F1 as (IA1 & Sz1 & La1 & Ed1 & Lc1 & Dk1).
   assert (Lc': (N.to_nat c' <= length h)%nat) by lia.
   assert (Lh': (N.to_nat c' <= length h')%nat) by (unfold h'; rewrite app_length, firstn_length_le by lia; lia).
@@ -428,7 +432,7 @@ Proof.
     + exact T2.
     + rewrite Ecm. rewrite La1 in Lt2. unfold aht_of in Lt2. cbn [a_latest] in Lt2. exact Lt2.
     + rewrite Eph. trivial.
-    + rewrite Ecfg. intros Fr. unfold aht_of in Dk2. cbn [a_c a_latest] in Dk2. apply Dk2.
+    + rewrite Ecfg. intros Fr. unfold CD, aht_of in Dk2. cbn [a_c a_latest] in Dk2. apply Dk2.
       rewrite La1. auto.
 Qed.
 
@@ -452,7 +456,7 @@ Qed.
 
 (* ================= with the proposed repair: recovery never fails ================= *)
 Theorem aht_check_never_fails c nv s im :
-  c_prealloc c = false -> 0 < c_thld c -> c_ahtsync c = true -> c_ahtreset c = true ->
+  c_prealloc c = false -> 0 < c_thld c -> c_ahtsync c = true -> c_ahtreset c = RSync ->
   reach c nv s -> crash s im -> ~ aht_check_fails im.
 Proof.
   intros Hp Ht Fl Fr R Cr.
@@ -461,7 +465,7 @@ Proof.
 Qed.
 
 Theorem crash_safety_repaired c nv s im :
-  c_prealloc c = false -> 0 < c_thld c -> c_ahtsync c = true -> c_ahtreset c = true ->
+  c_prealloc c = false -> 0 < c_thld c -> c_ahtsync c = true -> c_ahtreset c = RSync ->
   reach c nv s -> crash s im ->
   exists s', recover H c im = Ok s' /\ reach c nv s' /\ recovered_ok H s im s'.
 Proof.
@@ -471,7 +475,7 @@ Proof.
 Qed.
 
 Theorem crash_during_recovery_repaired c nv s im upto s1 im' :
-  c_prealloc c = false -> 0 < c_thld c -> c_ahtsync c = true -> c_ahtreset c = true ->
+  c_prealloc c = false -> 0 < c_thld c -> c_ahtsync c = true -> c_ahtreset c = RSync ->
   reach c nv s -> crash s im -> recover_upto H upto c im = Ok s1 -> crash s1 im' ->
   exists sf s2,
     recover H c im = Ok sf /\ recover H c im' = Ok s2 /\
